@@ -238,7 +238,14 @@ class PG:
     def leaf(self, ind):
         r = self.rng
         c = self.cfuncs
-        q = r.randrange(22)
+        q = r.randrange(24)
+        if q == 22:
+            # typed memoryview acquisition from a PEP-688 exporter whose __buffer__ is a fallible call
+            self.pk += 1
+            return ["%smv = Buf(%d)" % (ind, self.pk), "%sn += mv[0] + mv.shape[0]" % ind]
+        if q == 23:
+            self.pk += 1
+            return ["%smv = Buf(%d)" % (ind, self.pk), "%smv2 = mv[1:]" % ind, "%sn += mv2[0]" % ind, "%smv = None" % ind]
         if q == 20:
             return ["%sn = c_ngr0(a)" % ind]
         if q == 21:
@@ -341,6 +348,8 @@ class PG:
         self.emit("    cdef int n = 0")
         self.emit("    cdef double x = 0.0")
         self.emit("    cdef object o = None")
+        self.emit("    cdef int[:] mv = None")
+        self.emit("    cdef int[:] mv2 = None")
         self.emit("    cdef Pr0 pr = Pr0()")
         self.emit("    cdef Pr0 ps = PySub()")
         self.emit("    " + self.p())
@@ -398,7 +407,7 @@ def _has_guarded_return(lines):
     return False
 
 
-HEADER = "import sys\nfrom simseam import P, X, CM, E1, E2, E3, Inj, Tracked\n\n"
+HEADER = "import sys\nfrom simseam import P, X, CM, E1, E2, E3, Inj, Tracked, Buf\n\n"
 
 
 def gen_module(rng, nfuncs):
@@ -554,6 +563,10 @@ def one_run(check, seed, i, cfg):
                 P["unraisable_reported_by_noexcept_function"] = P.get("unraisable_reported_by_noexcept_function", 0) + 1
             if rs["outcome"][0] == "raise" and rs["outcome"][1][0] in ("TypeError", "OverflowError"):
                 P["typed_conversion_failed"] = P.get("typed_conversion_failed", 0) + 1
+            if rs["outcome"][0] == "raise" and rs["outcome"][1][0] in ("ValueError", "BufferError"):
+                P["buffer_acquisition_failed"] = P.get("buffer_acquisition_failed", 0) + 1
+            if '"buf.release"' in flat:
+                P["buffer_released"] = P.get("buffer_released", 0) + 1
             v = None
             if mon is not None:
                 P["events_" + mon.mode] = P.get("events_" + mon.mode, 0) + mon.events
